@@ -257,8 +257,10 @@ def gen_mesh(rng, kind=None, dims=None, id_mode=None, affine=None, tet2=False, e
     for _ in range(extra_nodes):
         coords[n] = (rng.randint(-9, 9), rng.randint(-9, 9), rng.randint(-9, 9))
         n += 1
+    inv_k = None
     if invert_one and conns:
         k = rng.randrange(len(conns))
+        inv_k = k
         typ, c = conns[k]
         base = 'tet' if typ == 'tet2' else typ
         f = FLIP[base]
@@ -271,6 +273,7 @@ def gen_mesh(rng, kind=None, dims=None, id_mode=None, affine=None, tet2=False, e
         rng.shuffle(order)
     nodes = [(nid[i], coords[i]) for i in order]
     eids = make_ids(rng, len(conns), rng.choice(['seq', 'sparse']) if id_mode != 'huge' else 'sparse')
+    inverted_eid = eids[inv_k] if inv_k is not None else None
     blocks = {}
     for (typ, c), e in zip(conns, eids):
         blocks.setdefault(typ, []).append((e, [nid[i] for i in c]))
@@ -278,6 +281,6 @@ def gen_mesh(rng, kind=None, dims=None, id_mode=None, affine=None, tet2=False, e
         rng.shuffle(blocks[typ])
     blocks = {typ: blocks[typ] for typ in TYPE_ORDER if typ in blocks}
     meta = {'kind': kind, 'dims': list(dims), 'affine': name, 'id_mode': id_mode, 'tet2': tet2,
-            'extra_nodes': extra_nodes, 'invert_one': invert_one,
+            'extra_nodes': extra_nodes, 'invert_one': invert_one, 'inverted_eid': inverted_eid,
             'n_elem': len(conns), 'n_node': n}
     return {'nodes': nodes, 'blocks': blocks, 'meta': meta}
